@@ -6,15 +6,14 @@
    Definitions used: [visible] = list(view); [wanted s id] = the flow matches the current filter and, in
    marked-only mode, is marked; [key_of s id] = current sort key of the flow under the selected order;
    [view_sorted] = list(view) ascending by key_of (descending when reversed); [notif] = what the signals of a
-   call say about the change of the shown set; [guarded G ops init] = every call of the history satisfies G.
+   call say about the change of the shown set.
 
-   The model describes view.py WITH fixes/C43-marked-only-add-update.diff applied (finding
-   marked-only-ignored-by-add-update, kind fixed: add/update tested only the filter, not show_marked);
-   with it the exactness statement holds at full strength (C43_exact).
-   One finding remains and makes the ordering statement false for the code (_refuted + _partial):
-   - stale-order-key: a cached sort key is refreshed only for the current order and only while the flow is shown.
-     [fresh_ok] is exactly the complement: no update leaves a cached key that differs from the flow's key
-     (for another order, or while the flow is hidden / stops being shown). *)
+   The model describes view.py WITH both repairs applied; with them the property holds at full strength:
+   - fixes/C43-marked-only-add-update.diff (finding marked-only-ignored-by-add-update, kind fixed):
+     add/update tested only the filter, not show_marked  ->  C43_exact has no guard.
+   - fixes/C43-stale-order-key.diff (finding stale-order-key, kind fixed): a cached sort key was reused for a
+     non-current order or for a flow that was hidden when its key changed; _base_add and set_order now
+     regenerate it  ->  C43_sorted has no guard. *)
 From Coq Require Import List Bool NArith Permutation Sorted.
 From MV Require Import Base.Bytes Model.View Proofs.ViewSpec Proofs.ViewOps Proofs.ViewMain.
 Import ListNotations.
@@ -43,21 +42,11 @@ Theorem C43_exact : forall ops s, run ops init = Ok s ->
 Proof. exact view_exact. Qed.
 Print Assumptions C43_exact.
 
-(* FINDING stale-order-key: a history (size order, back to time order, the first flow shrinks, size order
-   again) after which flow a is listed before flow b although b has the smaller current key. *)
-Theorem C43_sorted_refuted : exists ops s a b, run ops init = Ok s /\ reversed s = false
-  /\ visible s = [a; b] /\ (key_of s b < key_of s a)%N.
-Proof. exact stale_refuted. Qed.
-Print Assumptions C43_sorted_refuted.
-
-Theorem C43_sorted_refuted' : exists ops s, run ops init = Ok s /\ ~ view_sorted s.
-Proof. exact stale_not_sorted. Qed.
-Print Assumptions C43_sorted_refuted'.
-
-(* Outside that finding the list is sorted by the current key of the selected order, reversed when requested. *)
-Theorem C43_sorted_partial : forall ops s, guarded fresh_ok ops init -> run ops init = Ok s -> view_sorted s.
-Proof. exact view_sorted_partial. Qed.
-Print Assumptions C43_sorted_partial.
+(* The list is always sorted by the CURRENT key of the selected order, reversed when requested
+   (full strength, no guard; a flow's key may change at every update). *)
+Theorem C43_sorted : forall ops s, run ops init = Ok s -> view_sorted s.
+Proof. exact view_sorted_always. Qed.
+Print Assumptions C43_sorted.
 
 (* The focus is always a listed flow; it is None exactly when the view is empty. *)
 Theorem C43_focus : forall ops s, run ops init = Ok s ->
@@ -78,10 +67,9 @@ Theorem C43_signals : forall ops s o s', run ops init = Ok s -> step o s = Ok s'
 Proof. exact signals_match. Qed.
 Print Assumptions C43_signals.
 
-(* The guard is satisfiable on a non-trivial history (two marked flows, size order, marked-only mode, the
-   shown flow 0 shrinks and is re-sorted, reversed): the partial theorem applies to it. *)
+(* A non-trivial history (two marked flows, size order, marked-only mode, the shown flow 0 shrinks and is
+   re-sorted, reversed) ends with both flows listed in descending size order and the focus kept. *)
 Theorem C43_nonvacuous : exists s, run hist_good init = Ok s
-  /\ guarded fresh_ok hist_good init
-  /\ visible s = [1%N; 0%N] /\ show_marked s = true /\ focus s = Some 0%N.
+  /\ visible s = [1%N; 0%N] /\ show_marked s = true /\ focus s = Some 0%N /\ key_of s 1%N = 1%N /\ key_of s 0%N = 0%N.
 Proof. exact good_history. Qed.
 Print Assumptions C43_nonvacuous.
